@@ -21,7 +21,7 @@ class Spec(CheckSpec):
         "distinct digraphs"
     )
     assumptions = ["sticky/non-sticky semantics as in docs/source/rewards.rst: a sticky component keeps its value until the next qualifying event, a non-sticky one is 0 in a step without one"]
-    required_probes = ["c10_nonzero_shared_reward", "c10_nonzero_reward"]
+    required_probes = ["c10_nonzero_shared_reward", "c10_nonzero_reward", "c10_web_codes", "c10_web_code_other_than_200_404"]
     fn = "dst.props.c10:run"
     preload = ("dst.driver_env", "dst.monitors", "dst.scenario", "dst.props.c10")
 
@@ -42,7 +42,7 @@ class Spec(CheckSpec):
         n = 450 if tier == "quick" else 9000
         for i in range(n):
             seed = base_seed * 1000003 + 100000000 + i
-            prof = {"obs": False, "n_green": (1, 3), "n_red": (0, 1), "reward_sharing": 1.0, "reward_rich": True, "tight_links": 0.05}
+            prof = {"obs": False, "n_green": (1, 3), "n_red": (0, 1), "reward_sharing": 1.0, "reward_rich": True, "tight_links": 0.05, "web_rich": i % 10 < 7}
             yield {"kind": "trajectory", "seed": seed, "profile": prof, "n_ops": 40, "monitors": ["c10"], "op_mix": {"step": 0.85, "reset": 0.05, "fault": 0.10}}
         shipped = [("data_manipulation.yaml", 60, 70), ("data_manipulation_marl.yaml", 40, 45), ("uc7_config.yaml", 30, 35)]
         for name, mel, nops in shipped:
